@@ -133,6 +133,9 @@ func directCorpus() []*directInput {
 		// a group reference repeated in the stored contact (F6c, fixed by 595be89): Remove deleted one entry only
 		{Universe: simpleUniverse, Contact: &contactSpec{Name: "Jim", Lang: "eng", Status: "active", Groups: []int{3, 3, 0, 0}, Fields: map[string]string{}}, Modifier: &modSpec{Kind: "language", Text: "fra"}},
 		{Universe: simpleUniverse, Contact: &contactSpec{Name: "Jim", Lang: "eng", Status: "active", Groups: []int{0, 1, 0}, Fields: map[string]string{}}, Modifier: &modSpec{Kind: "groups", Mode: "remove", Groups: []int{0}}},
+		// ... and the same uuid stored twice under two names (the group was renamed between the two copies)
+		{Universe: simpleUniverse, Contact: &contactSpec{Name: "Jim", Lang: "eng", Status: "active", Groups: []int{3, 0, 3}, StaleGroupNames: true, Fields: map[string]string{}}, Modifier: &modSpec{Kind: "language", Text: "fra"}},
+		{Universe: simpleUniverse, Contact: &contactSpec{Name: "Jim", Lang: "eng", Status: "active", Groups: []int{1, 1, 4, 4}, StaleGroupNames: true, Fields: map[string]string{}}, Modifier: &modSpec{Kind: "groups", Mode: "remove", Groups: []int{1}}},
 		// static twin of F6b (known): stored as blocked and still listed in a static group; a modifier that changes nothing
 		{Universe: simpleUniverse, Contact: bob("blocked", nil, []int{0, 1}), Modifier: &modSpec{Kind: "status", Text: "blocked"}},
 		// a blocked contact leaves its static groups
